@@ -395,12 +395,22 @@ def main(mod, argv=None):
         with open(a.replay) as f:
             body = json.load(f)
         only = [eval(body.get("run_case_repr") or body["case_repr"], {"inf": float("inf"), "nan": float("nan")})]
+    # every temporary file of the run (generated ORM modules, sqlite files, ...) lives in one directory that is removed
+    # when the run ends, whatever happens to the worker processes
+    import shutil, tempfile
+    rundir = tempfile.mkdtemp(prefix="krrood_verif_run_")
+    os.environ["TMPDIR"] = rundir
+    tempfile.tempdir = rundir
     try:
         run = execute(mod, a.tier, seed, mutant=a.mutant, workers=a.workers, only_cases=only)
         code = report(mod, run, scratch=bool(a.mutant or a.replay))
     except HarnessError as e:
         print("HARNESS-ERROR:", e, file=sys.stderr)
         return 2
+    finally:
+        tempfile.tempdir = None
+        os.environ.pop("TMPDIR", None)
+        shutil.rmtree(rundir, ignore_errors=True)
     dt = time.time() - run.t0
     print(f"{mod.PROPERTY} tier={a.tier} seed={seed} cases={run.cases_done}/{run.cases_total} "
           f"evaluations={run.evaluations} nontrivial={len(run.nontrivial)} outcomes={len(run.outcomes)} "
